@@ -21,6 +21,8 @@ BAG = {
     "stallkill": '<<"join","reg","reg","sub","sub","call","call","stall","stall","pub","pub","pub","ckill","ckill","adv","resume","yield">>',
     # a script (the first two inputs are joins anyway): a callee that also subscribes is called, stops reading, its queue fills, ...
     "stallseq": '<<"join","join","reg","sub","call","stall","pub","pub","ckill","call","msess","adv","resume","yield","pub","cancel","adv","leave">>',
+    # a caller stops reading, its callee yields (held back in the retry loop), ...
+    "retryseq": '<<"join","join","reg","call","stallc","yield","pub","msess","adv","resume","call","yield","leave">>',
     "killx": '<<"join","join","sub","wsub","tst","tst","kill","kill","kill","leave","msess","pub">>',
     "stallburst": '<<"join","join","sub","sub","sub","stall","bpub","bpub","bpub","resume","pub","leave">>',
     "burst": '<<"join","join","sub","sub","sub","reg","pub","bpub","bpub","bpub","leave","bmix">>',
@@ -115,7 +117,7 @@ PROPS = {
                      dict(bag="kill", depth=14, quick=80, thorough=1200),
                      dict(bag="killx", depth=12, quick=160, thorough=2400),
                      dict(bag="meta", depth=14, quick=80, thorough=1200),
-                     dict(bag="stall", depth=16, quick=100, thorough=1500, mode="stall")],
+                     dict(bag="retryseq", depth=12, quick=90, thorough=1500, mode="stall", scripted=True)],
                 classes=["sess", "pubsub", "meta", "metaapi", "rpcreply", "rpcroute", "rpcintr", "snap"]),
     "C12": dict(family="core",
                 mc=dict(kinds=["join", "sub", "pub", "reg", "call", "leave", "disc"],
@@ -157,6 +159,14 @@ PROPS = {
                      dict(bag="shared", depth=20, quick=100, thorough=2000)],
                 classes=["rpcreply", "rpcintr", "rpcroute"]),
 }
+
+
+def _is_killall(e):
+    return e.get("ev") == "step" and e["in"]["op"] == "metacall" and "".join(e["in"]["uri"]) == "wamp.session.kill_all"
+
+
+# which recorded events can meet a known finding (by deviation name)
+KNOWN_TRIGGER = {"DevKillAllSilent": _is_killall}
 
 
 def matches_known(k, v):
@@ -293,6 +303,7 @@ def combine_realms(scns, seed, prop):
     rnd = random.Random(seed)
     out = []
     pool = list(scns)
+    rnd.shuffle(pool)
     n = 0
     while len(pool) >= 2:
         k = 3 if len(pool) >= 3 and rnd.random() < 0.5 else 2
@@ -319,17 +330,20 @@ def combine_realms(scns, seed, prop):
             r = rnd.choice([i for i, q in enumerate(queues) if q])
             steps.append(queues[r].pop(0))
         victim = rnd.randrange(k)
+        held = [r for r, sc in enumerate(parts) if "retryseq" in sc["id"] or ".stall" in sc["id"]]
+        if held and rnd.random() < 0.8:
+            victim = rnd.choice(held)
         rm = {"op": "rmrealm", "r": victim}
         pos = rnd.randrange(len(steps) // 2, len(steps) + 1)
         # preferably while a callee's handler in the victim realm is held back by a caller that
         # does not read (the removal then has to wait for it) ...
         stalled = False
         cands = []
-        for n, st in enumerate(steps):
+        for si, st in enumerate(steps):
             if st.get("r") == victim and st["op"] == "stall":
                 stalled = True
             if st.get("r") == victim and st["op"] == "yield" and stalled:
-                cands.append(n + 1)
+                cands.append(si + 1)
         if cands and rnd.random() < 0.8:
             pos = rnd.choice(cands)
         # ... and while somebody joins another realm, who must be served without delay
@@ -435,8 +449,31 @@ def run_core(prop, spec, tier, seed, work, replay):
                            "summary": "the worker running the router died in scenario %s: %s" % (
                                c["scn"], next((l for l in c["stderr"].splitlines() if l.startswith("panic:") or l.startswith("fatal error:")), "?"))})
     evs = read_trace(tf)
-    ok, nev, fails = validate_all(work, "Trace", "TraceSpec", consts, tf, "val")
-    groups0, _ = split_by_scn(evs)
+    groups0, order0 = split_by_scn(evs)
+    fails = []
+    if known:
+        # Scenarios that can meet a listed known finding are validated apart, so that the finding
+        # (reported as KNOWN-FINDING, never a violation) cannot use up the failure budget of the rest
+        trig = [s for s in order0 if any(KNOWN_TRIGGER.get(k["deviation"], lambda e: False)(e) for k in known for e in groups0[s])]
+        if trig:
+            ft = work.path("trig.ndjson")
+            with open(ft, "w") as fh:
+                for s in trig:
+                    for e in groups0[s]:
+                        fh.write(json.dumps(e) + "\n")
+            okt, nevt, failst = validate_all(work, "Trace", "TraceSpec", consts, ft, "valk", max_viol=40)
+            fails += failst
+            rest = work.path("rest.ndjson")
+            tset = set(trig)
+            with open(rest, "w") as fh:
+                for s in order0:
+                    if s not in tset:
+                        for e in groups0[s]:
+                            fh.write(json.dumps(e) + "\n")
+            tf = rest
+    ok, nev, fails2 = validate_all(work, "Trace", "TraceSpec", consts, tf, "val")
+    fails += fails2
+    ok = len(order0) - len(fails)
     for f in fails:
         v = {"kind": "trace-rejected", "scn": f["scn"], "scenario": byid[f["scn"]], "step": f["step"],
              "explain": f["explain"], "story": f["story"].split("\n"), "sig": violation_sig(f),
